@@ -30,6 +30,7 @@ from vf.sym import conc_bool, conc_int, untraced
 PROPERTY = "C19"
 FUNCTIONS = ["ProgressIndicator.start/advance/set_message/finish/auto/_spin/_display/_overwrite/_get_current_time_in_milliseconds"]
 PART = {}
+EXTRA_BOUNDS = 'also: smt_advance_float (E2, cvc5 QF_BVFP): two consecutive advance() calls at any binary64 clock readings <= 4e9 s, any armed deadline, any interval 1..3 600 000 ms; messages that look like placeholders; empty end message; manual use of the indicator after an automatic block; schedules in which caller and spinner wait for each other (10 s deadline).'
 BOUNDS = {"quick": "manual: 4 operations from {advance, set_message} after start, every clock advance any int >= 0 seconds, interval any whole number of seconds in [1, 3600]; "
                    "automatic: schedules of <= 3 body operations from {set_message, spinner runs k iterations (k <= 3), clock +0/+1 s} with 3 exits (normal / Exception / KeyboardInterrupt); ANSI and plain outputs",
           "thorough": "5 manual operations, 4 body operations"}
